@@ -20,4 +20,5 @@ def run(ctx):
                 "non-trivial = every recv/build event (each is checked against the full clause set)")
     CM.c04_models(ctx)
     CM.finding_replay(ctx, "C04")
+    J.lateness_sweep(ctx, "C04", list(range(30, 36)) if ctx.quick else list(range(1, 45)), starts=(None, 65520))
     J.run_scenarios(ctx, "C04", scenarios(ctx))
